@@ -299,6 +299,25 @@ func c17Worker(c *core.Collector, x *Ctx) {
 		}
 	})
 	c.Count("single_packet_layouts", int64(len(jobs)))
+	// (1b) EVERY payload length 0..Lmax once per layout class (video I, audio, transparent): a single packet, the same packet
+	// followed by a second one (the rest handed back must be exactly the second), and the packet cut one byte short
+	{
+		lmax := c.N(2600, 65535)
+		core.ParallelFor(lmax+1, ncpu(), func(l int) {
+			r := core.NewRand(c.Seed, "c17len", uint64(l))
+			for _, dt := range []int{0, 3, 4, 1 + l%2} {
+				k := c17Gen(r, dt, l)
+				b := k.Build()
+				run(b, []ref.RTP{k}, true, "every-length")
+				q := c17Gen(r, r.Intn(16), r.Intn(40))
+				run(append(append([]byte{}, b...), q.Build()...), []ref.RTP{k, q}, true, "every-length")
+				if len(b) > 0 {
+					run(b[:len(b)-1], nil, true, "cut")
+				}
+			}
+		})
+		c.Count("payload_lengths_swept", int64(lmax+1))
+	}
 	// (1d) modular tails: behind the first packet there are EXACTLY k*65536 more bytes (a length comparison carried out in
 	// 16 bits takes "body length + k*65536 bytes remain" for "exactly the body remains" and swallows the rest of the buffer),
 	// also k*256 and k*65536 +-1
